@@ -17,6 +17,28 @@ pub fn verif_dir() -> String {
     std::env::var("VERIF_DIR").ok().filter(|s| !s.is_empty()).unwrap_or_else(|| "/verif".to_string())
 }
 pub const NSHARDS: usize = 16;
+
+/// set as soon as a VIOLATION line has been printed (used by the time-budget watchdog)
+pub static VIOLATION_SEEN: AtomicBool = AtomicBool::new(false);
+static CURRENT_STREAM: Mutex<String> = Mutex::new(String::new());
+
+/// Time budget of one check run ($VERIF_BUDGET_S; default 900 s quick, 3 h thorough).  A run that
+/// exceeds it ends with exit 2 (inconclusive) - or 1 if a violation had already been reported -
+/// instead of hanging: on a changed tree an iterator may no longer terminate.
+pub fn start_watchdog(prop: &str, tier: Tier) {
+    let budget = std::env::var("VERIF_BUDGET_S").ok().and_then(|s| s.parse::<u64>().ok()).unwrap_or(match tier {
+        Tier::Quick => 900,
+        Tier::Thorough => 3 * 3600,
+    });
+    let prop = prop.to_string();
+    std::thread::spawn(move || {
+        std::thread::sleep(std::time::Duration::from_secs(budget));
+        let stream = CURRENT_STREAM.lock().map(|s| s.clone()).unwrap_or_default();
+        let seen = VIOLATION_SEEN.load(Ordering::SeqCst);
+        println!("{} {}: INCONCLUSIVE, time budget of {} s exceeded while running stream '{}'{}", prop, tier.name(), budget, stream, if seen { " (a violation had already been reported above)" } else { "" });
+        std::process::exit(if seen { 1 } else { 2 });
+    });
+}
 pub const WORKER_STACK: usize = 256 << 20;
 const DISTINCT_CAP: usize = 6_000_000;
 
@@ -389,6 +411,7 @@ impl Ctx {
             eprintln!("cannot write replay {}: {}", path, e);
         }
         println!("VIOLATION property={} replay={}", self.prop, path);
+        VIOLATION_SEEN.store(true, Ordering::SeqCst);
         let mut w = fail.what.clone();
         if w.len() > 1500 {
             w.truncate(1500);
@@ -523,6 +546,13 @@ impl Ctx {
         F: Fn(&S::Value) -> CheckResult + Sync,
         B: Fn(&S::Value) -> Value + Sync,
     {
+        if self.failed() {
+            eprintln!("[{} {}] stream {:<22} skipped (a violation has already been reported)", self.prop, self.tier.name(), cfg.name);
+            return;
+        }
+        if let Ok(mut c) = CURRENT_STREAM.lock() {
+            *c = cfg.name.to_string();
+        }
         let t0 = Instant::now();
         let total = scaled(cfg.cases);
         let nsh = cfg.shards.min(total.max(1) as usize).max(1);
@@ -588,9 +618,11 @@ impl Ctx {
                                     let mut best_f = first;
                                     let mut iters = 0u32;
                                     let mut last_failed = true;
+                                    let t_shrink = Instant::now();
                                     loop {
                                         let moved = if last_failed { tree.simplify() } else { tree.complicate() };
-                                        if !moved || iters >= cfg.max_shrink {
+                                        // shrinking is bounded by steps and by 45 s: any failing case is a valid replay
+                                        if !moved || iters >= cfg.max_shrink || t_shrink.elapsed().as_secs() >= 45 {
                                             break;
                                         }
                                         iters += 1;
@@ -664,6 +696,13 @@ impl Ctx {
         F: Fn(&C) -> CheckResult + Sync,
         B: Fn(&C) -> Value + Sync,
     {
+        if self.failed() {
+            eprintln!("[{} {}] stream {:<22} skipped (a violation has already been reported)", self.prop, self.tier.name(), cfg.name);
+            return;
+        }
+        if let Ok(mut c) = CURRENT_STREAM.lock() {
+            *c = cfg.name.to_string();
+        }
         let t0 = Instant::now();
         // a scale < 1 evaluates every k-th index only (and the stream is then not exhaustive)
         let stride = (1.0 / env_scale()).round().max(1.0) as u64;
